@@ -24,7 +24,7 @@ BINARY = ["add", "subtract", "multiply", "true_divide", "floor_divide", "remaind
           "greater", "greater_equal", "bitwise_and", "bitwise_or", "bitwise_xor", "left_shift", "right_shift", "logical_and", "logical_or", "logical_xor"]
 ALIGN = ["identical", "coincident", "nested", "interleaved", "constA", "constB", "independent"]
 REDS = ["sum", "any", "all", "max", "mean", "np.sum", "np.any", "np.all", "np.mean"]
-KINDS = ["unary", "rl", "rl_derived", "pyscalar", "npscalar", "reduce", "concat", "hist"]
+KINDS = ["unary", "rl", "rl_derived", "inplace", "pyscalar", "npscalar", "reduce", "concat", "hist"]
 FLOOR_TAGS = ["k:" + k for k in KINDS] + ["align:" + a for a in ALIGN] + ["side:L", "side:R", "kind:b", "kind:i", "kind:u", "kind:f", "noncommutative"] + ["red:" + r for r in REDS]
 FLOOR_MONITORS = ["c16:compare", "c16:operands-unchanged", "c16:canonical", "inv:rla"]
 N_RANDOM = {"quick": 36000, "thorough": 400000}
@@ -109,6 +109,28 @@ def run(case):
             o, a = attempt(uf, dw, dv), attempt(uf, rw, r)
         joined = True
         what = "%s(%s)" % (case["uf"], "rla, %s(rla)" % via if case["side"] == "R" else "%s(rla), rla" % via)
+    elif kind == "inplace":
+        # x op= y: afterwards the name x must hold the ufunc of the two operands (whether or not the object was updated in place)
+        import operator
+        iop = {"add": operator.iadd, "subtract": operator.isub, "multiply": operator.imul, "bitwise_xor": operator.ixor, "floor_divide": operator.ifloordiv}[case["uf"]]
+        uf = getattr(np, case["uf"])
+        if case.get("scalar") is not None:
+            y, dw = case["scalar"], case["scalar"]
+        else:
+            w = np.array(case["vals2"]).astype(case["dtype2"])
+            rw = RLA.from_array(w.copy())
+            y, dw = rw, np.asarray(rw.to_array())
+            before2 = snapshot(rw)
+        o = attempt(uf, dv, dw)
+        x = RLA.from_array(v.copy())
+        a = attempt(iop, x, y)
+        if a.ok and isinstance(a.value, RLA):
+            # the result object must be fully usable: decode, then use it in another operation
+            a2 = attempt(lambda: (a.value + 0).to_array())
+            if a2.ok and o.ok and not same_array(a2.value, np.asarray(o.value), dtype=False):
+                return violated("%s= on encoded %s %s: the result decodes differently when used in a further operation: %s" % (case["uf"], dt, short(v, 120), short(a2.value, 120)), tags + ["inplace-stale"])
+        r = x if False else r
+        what = "x %s= %s" % (case["uf"], "scalar %r" % (y,) if case.get("scalar") is not None else "encoded %s" % short(dw, 80))
     elif kind in ("pyscalar", "npscalar"):
         uf = getattr(np, case["uf"])
         s = case["scalar"] if kind == "pyscalar" else np.dtype(case["dtype2"]).type(case["scalar"])
@@ -160,16 +182,17 @@ def run(case):
         what = "np.concatenate of %d encoded arrays %s" % (len(parts), short([p.tolist() for p in parts[1:]], 100))
     elif kind == "hist":
         bins = case["bins"]
-        o = attempt(np.histogram, dv, bins)
-        a = attempt(np.histogram, r, bins)
-        desc = "np.histogram(encoded %s %s, bins=%s)" % (dt, short(v, 120), bins)
+        kw = {k_: (tuple(v_) if k_ == "range" else v_) for k_, v_ in (case.get("kw") or {}).items()}
+        o = attempt(lambda: np.histogram(dv, bins, **kw))
+        a = attempt(lambda: np.histogram(r, bins, **kw))
+        desc = "np.histogram(encoded %s %s, bins=%s, %s)" % (dt, short(v, 120), bins, kw)
         if not o.ok:
             return undefined("numpy raises: %r" % o, tags)
         CTX.tick("c16:compare")
         if not a.ok:
             return violated("%s raised %r" % (desc, a), tags)
         try:
-            ok = same_array(np.asarray(a.value[0]), np.asarray(o.value[0]), dtype=False) and np.allclose(a.value[1], o.value[1])
+            ok = np.allclose(np.asarray(a.value[0], dtype=np.float64), np.asarray(o.value[0], dtype=np.float64), rtol=1e-9, atol=0, equal_nan=True) and np.allclose(a.value[1], o.value[1])
         except Exception:
             ok = False
         if not ok:
@@ -290,6 +313,15 @@ def gen_case(rng, tier, kind=None, dtype=None, align=None, uf=None):
     elif kind == "npscalar":
         d2 = rng.choice(gen.DT_ALL)
         c.update(uf=uf or rng.choice(BINARY), dtype2=d2, scalar=gen.values(rng, d2, 1, "small").tolist()[0], side=rng.choice("LR"))
+    elif kind == "inplace":
+        c["uf"] = rng.choice(["add", "subtract", "multiply", "bitwise_xor" if k in "iub" else "add", "floor_divide"])
+        c["vclass"] = "small"
+        c["vals"] = rl.gen_runs(rng, dtype, "small", maxlen)[0].tolist()
+        if rng.random() < 0.3:
+            c["scalar"] = rng.choice([1, 2, 3])
+        else:
+            w, _ = rl.gen_runs(rng, dtype, "small", maxlen, length=len(c["vals"]))
+            c.update(vals2=(np.asarray(w) + (1 if c["uf"] == "floor_divide" and k != "b" else 0)).tolist() if k != "b" else np.asarray(w).tolist(), dtype2=dtype)
     elif kind == "rl_derived":
         c.update(uf=uf or rng.choice(BINARY), via=rng.choice(["times2", "neg", "astype", "self"]), side=rng.choice("LR"))
     elif kind == "reduce":
@@ -304,6 +336,12 @@ def gen_case(rng, tier, kind=None, dtype=None, align=None, uf=None):
             c["dtype"] = "int64"
             c["vals"] = [int(x) for x in c["vals"]]
         c["bins"] = rng.choice([3, 10, [0, 1, 2, 5], [-100, 0, 100]])
+        u = rng.random()
+        if u < 0.3:
+            c["kw"] = {"density": True}
+        elif u < 0.5 and isinstance(c["bins"], int):
+            lo_, hi_ = min(c["vals"]), max(c["vals"])
+            c["kw"] = {"range": [float(lo_), float(lo_ + max(1, (hi_ - lo_) // 2))], "density": rng.random() < 0.5}
     return c
 
 
@@ -329,6 +367,12 @@ def directed():
     for vals, dtype in (([2 ** 62, 2 ** 62, 2 ** 62, 5], "int64"), ([2 ** 63 - 1, 7, 7], "int64"), ([-2 ** 63, -2 ** 63, 0], "int64"), ([2 ** 64 - 1, 2 ** 64 - 1, 3], "uint64")):
         for name in ("mean", "np.mean"):
             yield {"kind": "reduce", "dtype": dtype, "vals": vals, "name": name, "vclass": "extreme"}
+    for a_, b_ in (([1, 2, 2, 3, 3, 3], [4, 5, 5, 5, 5, 5]), ([7, 7, 7, 7], [1, 2, 3, 4]), ([1, 2, 3, 4], [9, 9, 9, 9]), ([5, 5, 6, 6], [1, 1, 2, 2])):
+        for uf_ in ("subtract", "add", "multiply", "floor_divide"):
+            yield {"kind": "inplace", "dtype": "int64", "vals": a_, "dtype2": "int64", "vals2": b_, "uf": uf_, "vclass": "small"}
+    for kw_ in ({"density": True}, {"range": [1.0, 4.0]}, {"range": [1.0, 4.0], "density": True}, {"range": [3.0, 20.0], "density": True}):
+        yield {"kind": "hist", "dtype": "int64", "vals": [1, 1, 2, 5, 5, 5, 9, 9, 3], "bins": 4, "kw": kw_, "vclass": "small"}
+        yield {"kind": "hist", "dtype": "float64", "vals": [0.5, 0.5, 2.25, 7.0, 7.0, 1.0], "bins": 3, "kw": kw_, "vclass": "small"}
     # constant operand on either side of a non-commutative ufunc
     for uf in sorted(NONCOMM):
         yield {"kind": "rl", "dtype": "int64", "vals": [9] * 6, "dtype2": "int64", "vals2": [0, 0, 1, 1, 1, 4], "uf": uf, "align": "constA", "vclass": "small"}
@@ -339,6 +383,7 @@ def directed():
             yield {"kind": "reduce2", "dtype": "int64", "vals": vals, "name": name, "via": "gt9"}
             yield {"kind": "reduce2", "dtype": "int64", "vals": vals, "name": name, "via": "mul0"}
             yield {"kind": "reduce2", "dtype": "int64", "vals": vals, "name": name, "via": "concat"}
+            yield {"kind": "reduce2", "dtype": "int64", "vals": vals, "name": name, "via": "astype"}
 
 
 def sweep(tier):
@@ -363,7 +408,7 @@ def sweep(tier):
 def random_case(rng, tier):
     if rng.random() < 0.06:
         v, _ = rl.gen_runs(rng, "int64", "small", 10)
-        return {"kind": "reduce2", "dtype": "int64", "vals": v.tolist(), "name": rng.choice(REDS), "via": rng.choice(["gt9", "mul0", "concat", "neg"])}
+        return {"kind": "reduce2", "dtype": "int64", "vals": v.tolist(), "name": rng.choice(REDS), "via": rng.choice(["gt9", "mul0", "concat", "neg", "astype"])}
     return gen_case(rng, tier)
 
 
@@ -378,7 +423,9 @@ def run(case):   # noqa: F811  -- adds reductions of *derived* encodings (which 
     r = RLA.from_array(v.copy())
     via, name = case["via"], case["name"]
     tags = ["k:reduce2", "via:" + via, "red:" + name, "kind:i"]
-    if via == "gt9":
+    if via == "astype":
+        d, dense = r.astype(bool), v.astype(bool)
+    elif via == "gt9":
         d, dense = r > 100, v > 100
     elif via == "mul0":
         d, dense = r * 0, v * 0
